@@ -201,7 +201,8 @@ PURE_UNMODELLED = ["repr", "range", "hex", "divmod", "set", "ord"]
 IMPURE = ["print", "input", "exit", "id", "hash", "open", "__import__", "eval", "vars"]
 IMPURE_ARGS = [C(""), C("a"), C(None)]       # never hand an int (a file descriptor) to open()
 RECVS = ["", "a", "A b", 1, None, True]
-METHODS = ["upper", "lower", "join", "startswith", "endswith", "strip", "format", "nosuchmethod", "bit_length"]
+METHODS = ["upper", "lower", "join", "startswith", "endswith", "strip", "format", "nosuchmethod", "bit_length",
+           "__len__", "__hash__", "__add__"]
 
 
 def level1_ops(pool, pool3=None, chain_pool=None, full=True):
